@@ -726,10 +726,12 @@ func gen(c *core.Ctx) error {
 	optSets := []int{0, 32, 34, 36, 33, 63}
 	nAds := 3
 	if !c.Quick() {
-		nAds = 12
+		nAds = 6
 		optSets = nil
 		for o := 0; o < 64; o++ {
-			optSets = append(optSets, o)
+			if o&(8|16) == 0 || o == 63 || o == 8 || o == 16|32 { // NonBlocking / NoExpandWhitelist never reach the serialiser's decisions
+				optSets = append(optSets, o)
+			}
 		}
 	}
 	canaryN := 0
